@@ -302,7 +302,10 @@ pub fn check_event(ev: &Event, st: &mut Stats, out: &mut Vec<Viol>) {
                 if o.tag != "err_too_large" {
                     chk!(o.v == present.map(|e| e.vuid), "insert-ret", format!("{} returned previous value {:?}, the map held {:?}", op.to_text(), o.v, present.map(|e| e.vuid)), out);
                     let now = post.find(*id);
-                    chk!(now.map(|e| (e.kuid, e.vuid)) == Some((o.in_k.unwrap_or(0), o.in_v.unwrap_or(0))), "insert-stored", format!("{}: afterwards the key maps to {:?}, inserted {:?}", op.to_text(), now.map(|e| (e.kuid, e.vuid)), (o.in_k, o.in_v)), out);
+                    // the value must be the one just stored; WHICH of two equal key objects is kept (the new one, as this library does,
+                    // or the old one, as std's HashMap does) is not something C04 states
+                    let key_ok = now.map(|e| Some(e.kuid) == o.in_k || Some(e.kuid) == present.map(|p| p.kuid)).unwrap_or(false);
+                    chk!(now.map(|e| e.vuid) == o.in_v && key_ok, "insert-stored", format!("{}: afterwards the key maps to {:?}, inserted {:?}", op.to_text(), now.map(|e| (e.kuid, e.vuid)), (o.in_k, o.in_v)), out);
                 }
             }
             Op::TryInsert { id, .. } => {
